@@ -99,7 +99,32 @@ func queryConfigs(thorough bool) []qcfg {
 		)
 		b.rangeVals[""] = append(b.rangeVals[""], val.N("-3"), val.N("100"))
 	}
-	return []qcfg{a, b}
+	// index keys that are prefixes of one another followed by a character sorting before, at and
+	// after the separator '.' the implementation uses inside its key strings: an ordering of index
+	// entries by a concatenated string instead of by (index key, primary key) diverges exactly here
+	c := qcfg{
+		name: "H(S)+GSI(g)+GSI(g,s) separator-adjacent keys",
+		cfg: drv.TableCfg{Hash: "h", HashT: "S", Billing: "PAY_PER_REQUEST",
+			GSI: []drv.IndexCfg{{Name: "gsi", Hash: "g", HashT: "S"}, {Name: "gs2", Hash: "g", HashT: "S", Range: "s", RangeT: "S"}}},
+		universe: []val.Item{
+			it("h", val.S("k1"), "g", val.S("t"), "s", val.S("2024"), "a", val.S("v")),
+			it("h", val.S("k2"), "g", val.S("t-a"), "s", val.S("2024"), "a", val.S("w")),
+			it("h", val.S("k3"), "g", val.S("t"), "s", val.S("2024-01")),
+			it("h", val.S("k4"), "g", val.S("t"), "s", val.S("2024.1"), "a", val.S("v")),
+			it("h", val.S("k5"), "g", val.S("t a"), "s", val.S("2024/1")),
+		},
+		hashVals:  map[string][]val.V{"": sv("k1", "k3", "zz"), "gsi": sv("t", "t-a", "t a", "t.a"), "gs2": sv("t", "t-a", "t a")},
+		rangeVals: map[string][]val.V{"gs2": sv("2024", "2024-01", "2024.1", "2024/1", "2024-")},
+		prefixes:  map[string][]val.V{"gs2": sv("2024", "2024-", "2024.")},
+	}
+	if thorough {
+		c.universe = append(c.universe,
+			it("h", val.S("k1-x"), "g", val.S("t"), "s", val.S("2024"), "a", val.S("v")),
+			it("h", val.S("k1.x"), "g", val.S("t.a"), "s", val.S("2024-01")),
+		)
+		c.hashVals[""] = append(c.hashVals[""], val.S("k1-x"), val.S("k1.x"))
+	}
+	return []qcfg{a, b, c}
 }
 
 type filterSpec struct {
